@@ -699,8 +699,10 @@ type ssoOutcome struct {
 	Create   *world.Call
 }
 
-func ssoRun(w *world.World, req *http.Request) ssoOutcome {
-	rep := w.Do(req)
+func ssoRun(w *world.World, req *http.Request) ssoOutcome { return ssoOutcomeOf(w.Do(req)) }
+
+// ssoOutcomeOf classifies a reply (rep.Calls = the storage calls made for this request).
+func ssoOutcomeOf(rep *world.Reply) ssoOutcome {
 	o := ssoOutcome{Rep: rep, Creates: world.CountCalls(rep.Calls, "CreateAuthRequest")}
 	o.Create = world.FindCall(rep.Calls, "CreateAuthRequest")
 	o.Accepted = o.Creates > 0
